@@ -340,6 +340,22 @@ def transition(
         Tuple[PureSnapshot, List[ActionDefinition]]: The resulting snapshot
         and the actions that would have run.
     """
+    # 🏁 A machine that has finished (or failed) ignores events, exactly as
+    #    the interpreters do. Forcing the probe back to "running" revived a
+    #    `done` snapshot: the event was processed and the result reported as
+    #    "active" again.
+    if snapshot.status in ("done", "error"):
+        return (
+            PureSnapshot(
+                state_ids=set(snapshot.state_ids),
+                configuration=set(snapshot.configuration),
+                context=copy.deepcopy(snapshot.context),
+                status=snapshot.status,
+                output=snapshot.output,
+            ),
+            [],
+        )
+
     probe, recorded = _build_probe(machine, snapshot, None)
     probe.status = "running"
 
